@@ -70,11 +70,16 @@ pub enum MatchTypePattern {
     Null,
     Timestamp,
     Duration,
+    Type,
+    NullType,
+    Dyn,
 }
 
 impl MatchTypePattern {
-    pub fn from_type_str(s: &str) -> Self {
-        match s {
+    /// The pattern for a type name; `None` for a name this list does not know
+    /// (the caller reports it instead of panicking).
+    pub fn from_type_str(s: &str) -> Option<Self> {
+        Some(match s {
             "int" => MatchTypePattern::Int,
             "uint" => MatchTypePattern::Uint,
             "float" | "double" => MatchTypePattern::Float,
@@ -86,8 +91,11 @@ impl MatchTypePattern {
             "null" => MatchTypePattern::Null,
             "timestamp" => MatchTypePattern::Timestamp,
             "duration" => MatchTypePattern::Duration,
-            _ => panic!("Unknown type"),
-        }
+            "type" => MatchTypePattern::Type,
+            "null_type" => MatchTypePattern::NullType,
+            "dyn" => MatchTypePattern::Dyn,
+            _ => return None,
+        })
     }
 }
 
